@@ -50,6 +50,19 @@ MdsRow(in, r) == ModP(Nat256(<<MdsCol(in, r, 1), MdsCol(in, r, 2), MdsCol(in, r,
                                MdsCol(in, r, 5), MdsCol(in, r, 6), MdsCol(in, r, 7), MdsCol(in, r, 8)>>))
 MdsLayerOk(in, out) == \A r \in Lanes : ModP(out[r]) = MdsRow(in, r)
 
+\* ---- the sparse layer of the restructured partial rounds ---------------------------
+\* (Poseidon paper, appendix B: s * [[M00 | v], [w_hat | Id]]).  `wt` = <<M00, w_hat_1 .. w_hat_11>>,
+\* `v` = <<v_1 .. v_11>>, recorded with the event (they are derived constants: that they are the
+\* RIGHT ones is decided by partial_rounds = the textbook rounds; this predicate decides that the
+\* routine computes exactly this matrix product - every product exact, every carry of the wide
+\* accumulator kept):
+\*      out[1] = SUM_i in[i] * wt[i]          out[i] = in[i] + in[1] * v[i-1]   (i = 2..12)
+DiagPairs == [i \in Lanes |-> <<i, i>>]
+SparseMdsOk(in, out, wt, v) ==
+  /\ Len(wt) = PW /\ Len(v) = PW - 1 /\ \A i \in Lanes : Is64(wt[i])
+  /\ ModP(out[1]) = ModP(Nat256(ColSum(in, wt, DiagPairs)))
+  /\ \A i \in 2..PW : MacOk(in[i], in[1], v[i - 1], out[i])
+
 \* ---- one round and the chain -------------------------------------------
 RoundOk(r, prev, c, b, m) ==
   /\ IsState(c) /\ IsState(b) /\ IsState(m)
